@@ -77,6 +77,9 @@ func (g *zzGroup) commit(tag byte, m int) {
 }
 
 func (g *zzGroup) apply(i int, e zzEntry) {
+	if e.index > g.stores[i].Covered {
+		g.stores[i].Covered = e.index // Raft persists an entry before it applies it
+	}
 	r := g.nodes[i].Apply(&raft.Log{Index: e.index, Term: 1, Type: raft.LogCommand, Data: e.data})
 	if fr, ok := r.(*fsmResponse); ok && fr != nil && fr.err == nil {
 		if ss, ok := fr.val.([]*balloon.Snapshot); ok {
